@@ -36,6 +36,8 @@ LEVEL_NOTE = ('Real case, no preconditioner: CG, CR, CGNR, CGNE optimality prove
 RULE = ('HPD (cg, cr, sd, mr) and general nonsingular (gmres*, fgmres, cgnr, cgne) real/complex systems n=2..8 with cond <= 1e3, '
         'identity and SPD diagonal preconditioners, random x0, every k <= n: exact-Q model iterates vs implementation; dense '
         'minimiser over the k-dimensional (preconditioned) Krylov space; monotone norms; n-step termination.  Non-trivial: k >= 1.')
+RULE += (' '
+         'Operator storage alternates dense / CSR; preconditioned CGNR / CGNE checked against their preconditioned Krylov spaces.')
 TRUSTED = ['NumPy lstsq / QR on the oracle side']
 PARTIAL = ['GMRES: Arnoldi relation / orthonormality / triangularisation are hypotheses of the theorem (loops not modelled); Householder GMRES, FGMRES: oracle only',
            'preconditioned CG/CR/CGNR/CGNE optimality: exact-Q loop models + oracle (theorems are for M = I)', 'complex case: oracle only']
